@@ -38,6 +38,9 @@ CHECKS = {
  "C07": ("fault_enumeration", "cancellation / manual-deadline expiry injected by a tap callback after every prefix of the wire trace; monitors on later operations, resets on the wire, handler context at provably final states, probe call",
          "For 7 program pairs over the 3 streaming kinds (incl. 0..5 responses queued unread, with and without other calls) the cancel or deadline expiry is placed at every position of the wire trace. At final states: all operations returned, later receives report Canceled/DeadlineExceeded, later sends fail, exactly one reset unless the trailer was already delivered, handler not left running with a live context, a probe call succeeds.",
          "Positions exhaustive per scenario; schedules sampled; deadlines are harness-fired (manual context), not wall-clock.", "DESIGN.md 2/C07"),
+ "C05": ("exploration", "exhaustive enumeration of envelope interleavings (multiset permutations) driven by scripted peers against the real client and the real server, per-call observation oracle; wire-tap id-uniqueness monitor over long histories with barrier-released callers",
+         "Every order-preserving merge of the per-call scripts of k<=3 (thorough: also 4) concurrent unary/stream calls is executed on a fresh connection in both directions, and each call or handler must observe exactly its own messages, header, trailer and status. Id allocation is monitored on the wire over 10^4 (quick) / 10^5 (thorough) calls with 64 callers starting together.",
+         "Exhaustive for the listed script configurations only; goroutine schedules inside the client/server are sampled.", "DESIGN.md 2/C05"),
 }
 NOT_YET = "check not built yet in this round (runtime-monitoring design in DESIGN.md section 2); will be claimed once its monitor exists"
 
